@@ -214,7 +214,11 @@ def generate(cls, rng):
             ops.append(["set_tz", rng.randrange(len(TZ_SETTINGS))])
         elif r < 0.20:
             ops.append(rng.choice([["tick", rng.choice([1, 3600, 86400])],
-                                   ["jump", rng.choice(CLOCKS)]]))
+                                   ["jump", rng.choice(CLOCKS)],
+                                   ["decimal", rng.choice([28, 9, 6, 3]),
+                                    rng.choice(["ROUND_HALF_EVEN",
+                                                "ROUND_DOWN",
+                                                "ROUND_UP"])]]))
         elif r < 0.28 and ops and ops[-1][0] in ("fill", "zone", "fuzzy"):
             # the same call again, immediately: same text, same answer
             ops.append(list(ops[-1]))
@@ -419,6 +423,13 @@ def execute(cls, scenario, ctx):
                     ctx.event("world", op)
                 elif op[0] == "jump":
                     env.clock.set(op[1])
+                    env.config_events += 1
+                    ctx.event("world", op)
+                elif op[0] == "decimal":
+                    import decimal
+                    c = decimal.getcontext()
+                    c.prec = op[1]
+                    c.rounding = getattr(decimal, op[2])
                     env.config_events += 1
                     ctx.event("world", op)
                 elif op[0] == "fill":
